@@ -152,3 +152,36 @@ def check_proof_bytes(prop, tier, repo, verif):
     res['wall_s'] = round(time.time() - t0, 1)
     res['checker_cmd'] = 'tools/proofprobe %d %d %d (built against the current tree): %s presentations' % (head, tail, stride, m.group(2))
     return res
+
+
+def check_u64_grid(prop, tier, repo, verif):
+    t0 = time.time()
+    n = 7 if tier == 'thorough' else 5
+    res = {'unit': 'bounded:u64_boundary_grid', 'engine': 'bounded run of the real assembler + processor on std::math::u64 (tools/u64probe)', 'status': 'ok',
+           'failures': [], 'undecided': [], 'bounded': True,
+           'bound': 'all 29 u64 procedures on every operand pair with limbs from a %d-value boundary set (0, 1, 2^31, 2^32-2, 2^32-1%s), shifts/rotations on all amounts 0..63, compared with native arithmetic incl. a sentinel below the operands' % (n, ', 2, 2^31-1' if n == 7 else '')}
+    binp, err = build_tool(repo, verif, 'u64probe')
+    if binp is None:
+        res['status'] = 'undecided'
+        res['undecided'].append('u64probe does not build against the current tree: ' + err)
+        return res
+    p = subprocess.run([binp, str(n)], stdout=subprocess.PIPE, stderr=subprocess.PIPE, text=True)
+    m = re.search(r'SUMMARY executions=(\d+) failures=(\d+)', p.stdout)
+    if not m:
+        res['status'] = 'undecided'
+        res['undecided'].append('u64probe gave no summary: ' + (p.stdout + p.stderr)[-400:])
+        return res
+    seen = set()
+    for ln in p.stdout.split('\n'):
+        mm = re.match(r'FAIL (\w+) (.*)', ln)
+        if not mm or mm.group(1) in seen:
+            continue
+        seen.add(mm.group(1))
+        res['failures'].append({'obligation': '%s/bounded/u64_boundary_grid#u64::%s' % (prop, mm.group(1)), 'message': 'u64::%s deviates from the integer function' % mm.group(1),
+                                'rendered': ln, 'origins': ['stdlib/asm/math/u64.masm'],
+                                'failing_input': {'case': mm.group(2)[:300], 'cmd': '.cache/target/debug/u64probe %d' % n}})
+    if res['failures']:
+        res['status'] = 'fail'
+    res['wall_s'] = round(time.time() - t0, 1)
+    res['checker_cmd'] = 'tools/u64probe %d (built against the current tree): %s executions' % (n, m.group(1))
+    return res
